@@ -1,5 +1,6 @@
 import GraphSlam.Props.C17.Lemmas
 import Mathlib.Tactic.NormNum
+import Mathlib.Analysis.InnerProductSpace.PiL2
 
 /-!
 # C17 — `equals` is a sound, total tolerance comparison
@@ -22,6 +23,33 @@ namespace GraphSlam.Props.C17
 open GraphSlam.Model.Cmp GraphSlam.Model.Equals
 
 variable {tol : ℝ}
+
+/-! ## what `vnorm` and the tolerance test are -/
+
+/-- the model's `np.linalg.norm` is `√(Σ xᵢ²)` of the ravelled data -/
+theorem vnorm_eq_sqrt_sum_sq (xs : List ℝ) : vnorm xs = Real.sqrt ((xs.map fun x => x * x).sum) := norm_eq xs
+
+/-- … which is Mathlib's Euclidean norm of the vector (Frobenius norm of a matrix given by its entries) -/
+theorem vnorm_eq_euclidean (xs : List ℝ) :
+    vnorm xs = ‖(WithLp.toLp 2 (fun i : Fin xs.length => xs[i]) : EuclideanSpace ℝ (Fin xs.length))‖ := by
+  rw [norm_eq, EuclideanSpace.norm_eq]
+  congr 1
+  have h : ∀ (l : List ℝ), (l.map fun x => x * x).sum = ∑ i : Fin l.length, l[i] * l[i] := by
+    intro l
+    rw [← List.sum_ofFn]
+    congr 1
+    apply List.ext_getElem <;> simp
+  rw [h]
+  apply Finset.sum_congr rfl
+  intro i _
+  simp [Real.norm_eq_abs, pow_two]
+
+/-- the float expression `norm(a-b) / max(norm(a), tol) < tol` of the code decides `‖a−b‖ < tol·max(‖a‖,tol)`, and the
+    `>= tol` form used for the information matrix decides its negation -/
+theorem tolerance_test_iff (htol : 0 < tol) (a b : List ℝ) :
+    (CmpScalar.lt (relDiff tol a (zipSub a b)) tol = true ↔ vnorm (zipSub a b) < tol * max (vnorm a) tol) ∧
+    (CmpScalar.ge (relDiff tol a (zipSub a b)) tol = true ↔ tol * max (vnorm a) tol ≤ vnorm (zipSub a b)) :=
+  ⟨lt_relDiff_iff htol a b, (ge_relDiff_iff htol a b).trans not_lt⟩
 
 /-! ## poses -/
 
